@@ -247,7 +247,8 @@ def run(ctx) -> None:
                 inst = f"{fn.short}: {norm(st)}"
                 if fn.cls is trk and fn.name == "__init__":
                     ctx.ok("R15a", inst, trivial=True)
-                elif fn is ttick and isinstance(v, ast.Name) and v.id == t.attr and v.id in params:
+                elif fn is ttick and isinstance(v, ast.Name) and v.id in params[1:] and \
+                        params.index(v.id) == {"tick_time": 1, "tick_number": 2}.get(t.attr, -1):
                     ctx.ok("R15a", inst)
                 else:
                     ctx.fail("R15a", fn, st, inst, "Tracking's clock written outside Tracking.tick / not from its parameter: record "
@@ -564,7 +565,7 @@ def run(ctx) -> None:
                     if pol:
                         classes.add(x.attr)
                     found = True
-            if isinstance(e, ast.Compare) and norm(e.left) == "r.name":
+            if isinstance(e, ast.Compare) and norm(e.left) == f"{gri.node.args.args[1].arg}.name":
                 found = True
                 if pol and isinstance(e.ops[0], ast.Eq) and isinstance(e.comparators[0], ast.Constant):
                     names.add(e.comparators[0].value)
